@@ -22,6 +22,17 @@ Definition world_predicates (w : list parch) : list nat :=
 
 Definition query_predicates (ps : list qparam) : list nat := dedup_into [] (concat (p_cfgs <$> ps)).
 
+(** The cfg-probing macro_rules! chain (generate/cfg.rs): one link per collected predicate; rustc keeps,
+    of the two definitions of a link, the one whose #[cfg] holds; that link extends the list of
+    booleans received so far and calls the next link.  [pos]/[neg]: what the link kept when the
+    predicate is true / false does (translated from the templates): (appends?, literal). *)
+Definition chain_step (pos neg : bool * bool) (bools : list bool) (t : bool) : list bool :=
+  let '(app, lit) := if t then pos else neg in
+  if app then bools ++ [lit] else lit :: bools.
+
+Definition cfg_chain (pos neg : bool * bool) (truth : nat -> bool) (preds : list nat) : list bool :=
+  fold_left (fun bools p => chain_step pos neg bools (truth p)) preds [].
+
 (** The lookup table: zip of the collected predicates with the boolean list the cfg macro chain delivered. *)
 Definition cfg_lookup (preds : list nat) (states : list bool) (p : nat) : option bool :=
   (fun x => snd (snd x)) <$> list_find (fun x => fst x = p) (zip preds states).
